@@ -9,19 +9,18 @@ Open Scope N_scope.
 
 Record case := Case {
   ck : Z; cd : Z; casc : bool;          (* results.SortOrder, types.Direction, ascending *)
+  ctb : option Z;                       (* Some TimeBinSize (ns) if the statement selects the time label *)
   climit : N;                           (* Statement.NumResults *)
   cbound : option N;                    (* None: By(..).Sort + Statement.PostProcess;
                                            Some b: distributed finalizeResult (RowsMap, bound b) *)
   crows : list row;                     (* the multiset, in its base order *)
+  cextra : list row;                    (* rows seen in an output that are not input rows (re-binned rows);
+                                           indices address crows ++ cextra *)
   cfull : list (res (list N));          (* DISTINCT observed outputs of By(..).Sort over every tried input
-                                           order, as indices into crows; Panic if By/Sort panicked *)
-  clim : list (res (list N)) }.         (* DISTINCT observed outputs after the limit *)
+                                           order, as indices; Panic if By/Sort panicked *)
+  clim : list (res (list N * N)) }.     (* DISTINCT observed final (rows, Hits.Displayed) *)
 
 (* ---- equality of observables *)
-Definition tstamp_eqb (a b : tstamp) : bool := Z.eqb (inst a) (inst b) && Z.eqb (zone a) (zone b).
-Definition labels_eqb (a b : labels) : bool :=
-  tstamp_eqb (l_ts a) (l_ts b) && String.eqb (l_iface a) (l_iface b) && String.eqb (l_host a) (l_host b)
-  && String.eqb (l_hostid a) (l_hostid b).
 Definition counters_eqb (a b : counters) : bool :=
   N.eqb (c_br a) (c_br b) && N.eqb (c_bs a) (c_bs b) && N.eqb (c_pr a) (c_pr b) && N.eqb (c_ps a) (c_ps b).
 Definition row_eqb (a b : row) : bool :=
@@ -46,20 +45,26 @@ Fixpoint pick (rows : list row) (idx : list N) : option (list row) :=
 Definition nonempty {A} (l : list A) : bool := match l with [] => false | _ => true end.
 
 (* every observed output equals the expected result *)
-Definition all_equal (rows : list row) (expect : res (list row)) (outs : list (res (list N))) : bool :=
+Definition all_equal {A} (proj : A -> list N) (extra : A -> res (list row) -> bool)
+    (rows : list row) (expect : res (list row)) (outs : list (res A)) : bool :=
   nonempty outs &&
   forallb (fun o => match o, expect with
-                    | Ok idx, Ok e => match pick rows idx with Some l => rows_eqb l e | None => false end
+                    | Ok a, Ok e => match pick rows (proj a) with Some l => rows_eqb l e | None => false end
+                                    && extra a expect
                     | Panic, Panic => true
                     | _, _ => false end) outs.
 
+Definition pool (c : case) : list row := crows c ++ cextra c.
+
 (* does the model still describe the code? *)
 Definition corr (c : case) : bool :=
-  all_equal (crows c) (run_sort (ck c) (cd c) (casc c) (crows c)) (cfull c)
-  && all_equal (crows c)
+  all_equal (fun a => a) (fun _ _ => true) (pool c) (run_sort (ck c) (cd c) (casc c) (crows c)) (cfull c)
+  && all_equal fst
+       (fun a e => match e with Ok l => N.eqb (snd a) (N.of_nat (List.length l)) | _ => true end)
+       (pool c)
        (match cbound c with
-        | None => run_pp (ck c) (cd c) (casc c) (climit c) (crows c)
-        | Some b => run_fin (ck c) (cd c) (casc c) (climit c) b (crows c) end) (clim c).
+        | None => run_pp (ck c) (cd c) (casc c) (ctb c) (climit c) (crows c)
+        | Some b => run_fin (ck c) (cd c) (casc c) (ctb c) (climit c) b (crows c) end) (clim c).
 
 (* ---- the specification, written against the record fields only (no comparator of the model) *)
 Definition valid_order (k d : Z) : bool :=
@@ -92,20 +97,77 @@ Fixpoint is_prefix (a b : list N) : bool :=
   | _, _ => false
   end.
 
+(* ---- specification of the re-binned result: one row per (bin end, labels, attributes) group with the
+   counters summed, ordered by time; written with the ceiling formula, independently of Model.bin_sec *)
+Definition spec_bin (size_ns : Z) (r : row) : row :=
+  let t := l_ts (r_labels r) in
+  if (inst t =? zero_inst)%Z then r
+  else
+    let s := (size_ns / 1000000000)%Z in
+    let sec := (inst t / 1000000000)%Z in
+    let b := if (s <=? 0)%Z then sec else ((sec + s - 1) / s * s)%Z in
+    {| r_labels := {| l_ts := {| inst := (b * 1000000000)%Z; zone := 100 |}; l_iface := l_iface (r_labels r);
+                      l_host := l_host (r_labels r); l_hostid := l_hostid (r_labels r) |};
+       r_attrs := r_attrs r; r_counters := r_counters r |}.
+
+Definition sum64 (f : counters -> N) (l : list row) : N :=
+  fold_right (fun r acc => (f (r_counters r) + acc) mod 2 ^ 64) 0 l.
+
+Fixpoint distinct_groups (l : list row) : list row :=
+  match l with
+  | [] => []
+  | x :: t => let d := distinct_groups t in if existsb (gokey_eqb x) d then d else x :: d
+  end.
+
+Fixpoint pairwise_distinct (l : list row) : bool :=
+  match l with
+  | [] => true
+  | x :: t => negb (existsb (gokey_eqb x) t) && pairwise_distinct t
+  end.
+
+Definition binned_ok (c : case) (size : Z) (out : list row) : bool :=
+  let sb := map (spec_bin size) (crows c) in
+  let g := N.of_nat (List.length (distinct_groups sb)) in
+  let lim := match cbound c with None => climit c | Some b => N.min (climit c) b end in
+  primary_sorted 3 1 true out                                  (* ordered by time *)
+  && pairwise_distinct out                                     (* one row per group *)
+  && forallb (fun o =>                                         (* ... carrying the sum of its group *)
+       let members := filter (gokey_eqb o) sb in
+       nonempty members
+       && N.eqb (c_br (r_counters o)) (sum64 c_br members) && N.eqb (c_bs (r_counters o)) (sum64 c_bs members)
+       && N.eqb (c_pr (r_counters o)) (sum64 c_pr members) && N.eqb (c_ps (r_counters o)) (sum64 c_ps members)) out
+  && (if climit c =? 0
+      then match cbound c with None => N.of_nat (List.length out) =? g | Some _ => true end
+      else N.of_nat (List.length out) =? N.min lim g)        (* the first `limit` groups *)
+  && match rev out with                                        (* no dropped group is earlier than a kept one *)
+     | [] => true
+     | last :: _ =>
+       forallb (fun r => existsb (gokey_eqb r) out
+                         || (inst (l_ts (r_labels last)) <=? inst (l_ts (r_labels r)))%Z) sb
+     end.
+
 (* does the observed behaviour satisfy the property? *)
 Definition holds (c : case) : bool :=
   if valid_order (ck c) (cd c) then
     match cfull c, clim c with
-    | [Ok f], [Ok l] =>                                    (* ONE output over all input orders *)
+    | [Ok f], [Ok (l, disp)] =>                            (* ONE output over all input orders *)
       let n := List.length (crows c) in
       is_perm_of_range n f                                 (* the same rows *)
       && match pick (crows c) f with
          | Some rs => primary_sorted (ck c) (cd c) (casc c) rs   (* in the selected order *)
          | None => false end
-      && is_prefix l f                                     (* the limit keeps the first rows *)
-      && (if climit c =? 0 then true
-          else N.of_nat (List.length l) =?
-               N.min (match cbound c with None => climit c | Some b => N.min (climit c) b end) (N.of_nat n))
+      && (disp =? N.of_nat (List.length l))                (* Hits.Displayed = rows returned *)
+      && (if match ctb c with Some size => negb (size =? five_min_ns)%Z | None => false end
+          then                                             (* re-binned: first rows of the sorted groups *)
+            match ctb c, pick (pool c) l with
+            | Some size, Some out => binned_ok c size out
+            | _, _ => false
+            end
+          else
+            is_prefix l f                                  (* the limit keeps the first rows *)
+            && (if climit c =? 0 then true
+                else N.of_nat (List.length l) =?
+                     N.min (match cbound c with None => climit c | Some b => N.min (climit c) b end) (N.of_nat n)))
     | _, _ => false
     end
   else true.
